@@ -27,6 +27,11 @@ def std_pipe(ctx, name, features, binname, args='', env=None, shards=None, tier=
     return res
 
 
+def deep(ctx, tier, **kv):
+    """extra budget for the thorough tier: the quick tier keeps the harness defaults"""
+    return {k: str(v) for k, v in kv.items()} if (tier or ctx.tier) == 'thorough' else {}
+
+
 def search_with(run_fn, seeds=(7, 11, 13)):
     """generic failing-input search: re-run the correspondence at the thorough budget under other seeds,
     keeping only oracle failures (the model's prediction is ignored)"""
@@ -82,6 +87,7 @@ spec('C03',
 
 def run_c16(ctx, tier=None, seed=None):
     env = {'VERIF_LINES': 'rnd'}
+    env.update(deep(ctx, tier, VERIF_NRANDOM=512))
     std_pipe(ctx, 'rnd-bases', 'fl', 'conv', 'others', env=env, tier=tier, seed=seed)
 
 
@@ -90,7 +96,7 @@ spec('C16',
      search=search_with(run_c16),
      rule='floor/ceil/round/trunc/fract in 140 units of 30 quantities (incl. both offset temperature scales) × {f32,f64} × 9 base-unit sets; '
           'values as for C03 plus half-integers; non-trivial as for C03',
-     trusted_base=['powi results are taken from the implementation'],
+     trusted_base=['the powi factors of a line are taken from the implementation; `pow`/`xpow` lines check every factor against the model and the exact power'],
      assumptions=['oracle applies when no intermediate over/underflows'])
 
 
@@ -110,7 +116,7 @@ spec('C06', run=run_c06, search=search_with(run_c06),
      rule='7 ordered pairs of base-unit sets (si,cgs,kgh,fpm,mmm,onlyth) × 11 same-dimension quantities (incl. angle/information/surface-tension kinds, '
           'TT±TI) × 13 forms, 7 mul/div dimension pairs, mul_add and hypot over three base sets, 9 kind-conversion pairs; f32, f64 (bit-exact vs model, '
           'exact-rational oracle), BigRational and BigInt (exact); non-trivial = base sets differ or operands differ',
-     trusted_base=['powi results are taken from the implementation', 'hypot is a libm parameter: only the oracle applies'],
+     trusted_base=['the powi factors of a line are taken from the implementation; `pow`/`xpow` lines check every factor against the model and the exact power', 'hypot is a libm parameter: only the oracle applies'],
      assumptions=['float oracles apply only when change_base stays in the normal range; remainder has no accuracy oracle (discontinuous)'])
 
 
@@ -145,7 +151,7 @@ def run_c10(ctx, tier=None, seed=None):
 spec('C10', run=run_c10, search=search_with(run_c10),
      rule='all ten comparison observables (== != < <= > >= partial_cmp cmp max min clamp) on 11 storage types same-base (default and non-default base units) and on '
           'f32/f64/BigRational/BigInt mixed-base pairs; values incl. NaN, ±0, ±inf, adjacent floats, extreme integers, equal operands; non-trivial = operands differ or bases differ',
-     trusted_base=['powi results are taken from the implementation'],
+     trusted_base=['the powi factors of a line are taken from the implementation; `pow`/`xpow` lines check every factor against the model and the exact power'],
      assumptions=['mixed-base float comparisons are judged by the oracle only when the magnitudes differ by more than 4u'])
 
 
@@ -266,7 +272,7 @@ TEMP = '(thermodynamic_temperature|temperature_interval)'
 
 
 def run_c08(ctx, tier=None, seed=None):
-    std_pipe(ctx, 'convx-exact', 'wide', 'convx', 'exact', tier=tier, seed=seed)
+    std_pipe(ctx, 'convx-exact', 'wide', 'convx', 'exact', tier=tier, seed=seed, env=deep(ctx, tier, VERIF_N=1500))
 
 
 spec('C08', run=run_c08, search=search_with(run_c08),
@@ -288,12 +294,12 @@ def run_c09(ctx, tier=None, seed=None):
 spec('C09', run=run_c09, search=search_with(run_c09),
      rule='all 24 temperature-point and 24 interval units × f32/f64 in SI base units, 6+5 units × 9 base-unit sets (kelvin, millikelvin, kilokelvin, °R bases) × '
           'f32/f64/BigRational/BigInt/…; TT±TI, TT+=TI, TI+TT over same and mixed base sets; values incl. 0, −273.15, 273.15, 459.67, 32; non-trivial as for C03',
-     trusted_base=['powi results are taken from the implementation'],
+     trusted_base=['the powi factors of a line are taken from the implementation; `pow`/`xpow` lines check every factor against the model and the exact power'],
      assumptions=['float oracle bounds as for C03 (ulps at the larger of result and offset term)'])
 
 
 def run_c20(ctx, tier=None, seed=None):
-    std_pipe(ctx, 'complex', 'wide', 'convx', 'complex', tier=tier, seed=seed)
+    std_pipe(ctx, 'complex', 'wide', 'convx', 'complex', tier=tier, seed=seed, env=deep(ctx, tier, VERIF_N=20000))
 
 
 spec('C20', run=run_c20, search=search_with(run_c20),
@@ -468,14 +474,14 @@ spec('C05', run=run_c05, search=search_c05,
 # C11 / C12: formatting and parsing (the driver is first fed the Lean-generated label/coefficient table)
 
 
-def text_pipe(ctx, name, mode, features='wide', tier=None, seed=None):
+def text_pipe(ctx, name, mode, features='wide', tier=None, seed=None, env=None):
     if not cargo_build(ctx, features, ['text']):
         return None
     dump = lean_dump(ctx)
     if dump is None:
         return None
     cmd = '{ cat %s; %s %s; }' % (dump, bin_path('text', False, features), mode)
-    res = pipe(ctx, name, cmd, tier=tier, seed=seed)
+    res = pipe(ctx, name, cmd, tier=tier, seed=seed, env=env)
     absorb(ctx, res, name)
     return res
 
@@ -495,8 +501,8 @@ spec('C11', run=run_c11, search=search_with(run_c11),
 
 
 def run_c12(ctx, tier=None, seed=None):
-    text_pipe(ctx, 'parse', 'parse', tier=tier, seed=seed)
-    text_pipe(ctx, 'format-then-parse', 'prt', tier=tier, seed=seed)
+    text_pipe(ctx, 'parse', 'parse', tier=tier, seed=seed, env=deep(ctx, tier, VERIF_N=3000))
+    text_pipe(ctx, 'format-then-parse', 'prt', tier=tier, seed=seed, env=deep(ctx, tier, VERIF_N=3000))
 
 
 def search_c12(ctx):
@@ -531,19 +537,19 @@ spec('C12', run=run_c12, search=search_c12,
 # C13 / C14 / C18
 
 
-def misc_pipe(ctx, name, mode, tier=None, seed=None):
+def misc_pipe(ctx, name, mode, tier=None, seed=None, env=None):
     if not cargo_build(ctx, 'wide', ['misc']):
         return None
     dump = lean_dump(ctx)
     if dump is None:
         return None
-    res = pipe(ctx, name, '{ cat %s; %s %s; }' % (dump, bin_path('misc', False, 'wide'), mode), tier=tier, seed=seed)
+    res = pipe(ctx, name, '{ cat %s; %s %s; }' % (dump, bin_path('misc', False, 'wide'), mode), tier=tier, seed=seed, env=env)
     absorb(ctx, res, name)
     return res
 
 
 def run_c13(ctx, tier=None, seed=None):
-    misc_pipe(ctx, 'serde', 'serde', tier=tier, seed=seed)
+    misc_pipe(ctx, 'serde', 'serde', tier=tier, seed=seed, env=deep(ctx, tier, VERIF_N=100000))
 
 
 spec('C13', run=run_c13, search=search_with(run_c13),
@@ -554,7 +560,7 @@ spec('C13', run=run_c13, search=search_with(run_c13),
 
 
 def run_c14(ctx, tier=None, seed=None):
-    misc_pipe(ctx, 'duration', 'dur', tier=tier, seed=seed)
+    misc_pipe(ctx, 'duration', 'dur', tier=tier, seed=seed, env=deep(ctx, tier, VERIF_N=300000))
 
 
 spec('C14', run=run_c14, search=search_with(run_c14),
@@ -565,7 +571,7 @@ spec('C14', run=run_c14, search=search_with(run_c14),
 
 
 def run_c18(ctx, tier=None, seed=None):
-    misc_pipe(ctx, 'angle-ratio', 'trig', tier=tier, seed=seed)
+    misc_pipe(ctx, 'angle-ratio', 'trig', tier=tier, seed=seed, env=deep(ctx, tier, VERIF_N=150000))
 
 
 spec('C18', run=run_c18, search=search_with(run_c18),
